@@ -686,7 +686,7 @@ func genKE(t *rapid.T) keCase {
 }
 
 func TestPropNTSKERecords(t *testing.T) {
-	vt.Check(t, 20000, 200000, func(t *rapid.T) {
+	vt.Check(t, 60000, 500000, func(t *rapid.T) {
 		c := genKE(t)
 		checkKE(t, c)
 		stream, _, _ := buildKE(c)
